@@ -170,6 +170,20 @@ def case_history(case):
     return {"v": v, "nt": len(case["ops"]) > 1, "n": n}
 
 
+def case_phys_history(case):
+    """two consecutive calls on one grid that differ in exactly one physical parameter: the second must be its own closed form"""
+    dom, res, mxy = [-100.0, 300.0, -150.0, 150.0], 10.0, [0.0, 0.0]
+    v = []
+    for k, p in enumerate(case["phys"]):
+        gx, gy, f = _call(*p, dom, res, mxy)
+        o, _ = km.footprint(gx, gy, *p)
+        e = np.abs(f - o * res**2).max() / max((o * res**2).max(), 1e-300)
+        if not e <= 1e-9:
+            v.append({"sub": "history", "sig": "history/parameters", "msg": "call %d of the parameter history %s differs from its own closed form by %.2e of the maximum" % (k, case["phys"], e)})
+            break
+    return {"v": v, "nt": True, "n": 2}
+
+
 def _z0_oracle(zmv, ws, wd, us, L, hw):
     """circular-window median of the log-law inversions, by brute force"""
     raw = np.array([km.z0_from_loglaw(zmv, ws[i], us[i], L[i]) for i in range(len(ws))])
@@ -190,7 +204,7 @@ def case_z0(case):
     n = 0
     rng_wd = np.arange(0.5, 360.0, 7.0)  # half-integer lattice: bins [k, k+1) are unambiguous
     nobs = len(rng_wd)
-    for zmv, ztype in itertools.product((2.0, 10.0, 30.0), ("float", "int", "np.int64")):
+    for zmv, ztype in [(case["zm"], case["ztype"])]:
         zm = np.full(nobs, zmv).astype({"float": float, "int": int, "np.int64": np.int64}[ztype])
         ws = 2.0 + (np.arange(nobs) % 5) * 0.7
         us = 0.25 + (np.arange(nobs) % 4) * 0.1
@@ -215,6 +229,16 @@ def case_z0(case):
             if not np.allclose(got, want, rtol=1e-10, atol=0, equal_nan=True):
                 i = int(np.nanargmax(np.abs(got / want - 1)))
                 v.append({"sub": "z0-window", "sig": "z0-window", "msg": "estimateZ0 (window %d, zm=%g as %s): observation at %.1f deg gets %.8g, the median over its circular direction window is %.8g" % (win, zmv, ztype, dwd[i], got[i], want[i])})
+            # whole-degree directions 0..359 (what a logger that reports integer degrees delivers), as floats and as integers:
+            # every window edge falls exactly on an observation
+            for wdt in (float, np.int64):
+                iwd = np.arange(0, 360).astype(wdt)
+                got = estimateZ0(dzm, dws, iwd, dus, dL, half_wd_win=win)
+                want = _z0_oracle(zmv, dws, iwd.astype(float), dus, dL, win)
+                n += 1
+                if not np.allclose(got, want, rtol=1e-10, atol=0, equal_nan=True):
+                    i = int(np.nanargmax(np.abs(got / want - 1)))
+                    v.append({"sub": "z0-window", "sig": "z0-window/whole-degrees", "msg": "estimateZ0 (window %d, zm=%g as %s, whole-degree directions as %s): observation at %d deg gets %.8g, the median over its circular direction window is %.8g" % (win, zmv, ztype, np.dtype(wdt).name, int(iwd[i]), got[i], want[i])})
             for rot in (1, 23, 90, 137, 338):
                 r = estimateZ0(dzm, dws, (dwd + rot) % 360.0, dus, dL, half_wd_win=win)
                 n += 1
@@ -248,8 +272,12 @@ def run(ctx):
     ctx.run_cases(case_cells, _chunks(phys, 8), sub="cells+rotation", chunksize=1)
     ctx.run_cases(case_types, _chunks(ints, 8), sub="scalar-types", chunksize=1)
     ctx.run_cases(case_mass, [{"p": list(p), "tier": ctx.tier} for p in phys[:: (2 if ctx.tier == "quick" else 1)]], sub="captured-mass", chunksize=1)
-    ctx.run_cases(case_z0, [{"z0": "lattice"}], sub="estimateZ0", serial=True)
+    ctx.run_cases(case_z0, [{"zm": zz, "ztype": t} for zz, t in itertools.product((2.0, 10.0, 30.0), ("float", "int", "np.int64"))], sub="estimateZ0", chunksize=1)
     alphabet = [[list(m), w] for m in ((0.0, 0.0), (10.0, -5.0), (40.0, 20.0)) for w in (None, 30.0)]
+    # plus one-argument twins of the physical parameters (same grid and receptor): (zm, z0, ws, ustar, L, sigma_v)
+    phys = [(10.0, 0.1, 3.0, 0.4, -50.0, 0.8), (10.0, 0.1, 3.0, 0.25, -50.0, 0.8), (10.0, 0.1, 5.0, 0.4, -50.0, 0.8), (10.0, 0.3, 3.0, 0.4, -50.0, 0.8), (10.0, 0.1, 3.0, 0.4, 80.0, 0.8), (4.0, 0.1, 3.0, 0.4, -50.0, 0.8), (10.0, 0.1, 3.0, 0.4, -50.0, 1.3)]
+    ph = [{"phys": [list(a), list(b)]} for a in phys for b in phys if a != b]
+    ctx.run_cases(case_phys_history, ph, sub="parameter-histories")
     depth = 2 if ctx.tier == "quick" else 3
     hist = [{"ops": list(h)} for d in range(1, depth + 1) for h in itertools.product(alphabet, repeat=d)]
     ctx.run_cases(case_history, hist, sub="call-histories")
